@@ -48,10 +48,10 @@ META2 = {
         explanation="s_step.c: from every object state satisfying RI (command state and event state fixed per job), one cat_service call with an arbitrary environment (read delivers any byte or "
                     "nothing, write returns any int, handlers return any int and may rewrite their buffer, variable callbacks return any int). Obligations: every CBMC built-in check inside cat.c "
                     "(array bounds, pointer validity incl. function pointers, pointer overflow, signed overflow, shifts, division), RI re-established, bytes behind every variable's data_size "
-                    "unchanged, the event buffer untouched unless the event FSM is formatting and the command buffer untouched by states that do not own it. k_num.c / k_buf.c with the built-in "
-                    "checks on cover the argument parsers on texts longer than the step family's buffers (20+ digits).",
+                    "unchanged, the event buffer untouched unless the event FSM is formatting and the command buffer untouched by states that do not own it. k_lanes.c with the built-in "
+                    "checks on: the 2-bit match table of a 200-command table kept in a working buffer of the smallest size cat_init accepts, canary bytes behind it (set_cmd_state, get_cmd_state, prepare_parse_command).",
         bounds={"quick": "102 step jobs: every command state with the event FSM idle, every event state with the command FSM idle, cross pairs around flush/hold; states working on a variable are split per "
-                         "variable (6) and event-handler jobs per return code (9); command buffer 6..8 bytes; queue capacity 1; plus 5 kernel jobs (text <= 24 / 12 / 10 characters)",
+                         "variable (6) and event-handler jobs per return code (9); command buffer 6..8 bytes (shared buffers of any size 12..17, odd sizes included); queue capacity 1; plus the k_lanes job",
                 "thorough": "all 26 x 11 state pairs (1516 jobs), command buffer 6..12 bytes"},
         outside="data_size 9..64, more than 3 commands / 6 variables, buffers above the family's sizes, misaligned data pointers supplied by the user, printf argument-type pedantry; "
                 "RI admits some unreachable states (a counterexample from such a state is reported with its pre-state, see DESIGN.md 3.4)",
@@ -88,13 +88,14 @@ META2 = {
         assumptions=["handlers return terminal codes"],
         level_text="bounded model checking through the public API around the capacity boundary"),
     "C07": dict(
-        engine=E1,
+        engine=E1 + " + " + E3,
         explanation="k_rt.c: for symbolic values of 1-2 read-write variables the real READ formatter (start_processing_format_read_args + format_read_args) produces the argument list, the variables are "
-                    "scrambled, and the real WRITE parser (parse_write_args) must accept that text and restore every value. snprintf is the witness-style model validated against libc.",
+                    "scrambled, and the real WRITE parser (parse_write_args) must accept that text and restore every value. snprintf is the witness-style model validated against libc. "
+                    "r_args.c (transport leg): a WRITE line's argument bytes - anything but LF, '?' and '=' included - reach the argument parser / write handler unchanged, as a WRITE, answered by a result code alone.",
         bounds={"quick": "every bit pattern of 8/16/32-bit signed, unsigned and hex variables; all byte-buffer contents and all strings (any non-NUL byte) for data_size 1..8; homogeneous pairs at 8 bit; "
                          "command-buffer capacity symbolic from 6 bytes up to 16 / 22 (a response that does not fit must be refused, never cut and then accepted back)",
                 "thorough": "additionally all 25 ordered type pairs"},
-        outside="data_size 9..64; three or more variables; the line-level loop (C06 + C10 carry the text through the parser unchanged)",
+        outside="data_size 9..64; three or more variables; argument texts longer than 5 (thorough 6) bytes at line level (the kernels take up to 22 / 40)",
         assumptions=["snprintf model (k_snprintf validation)", "strings are NUL-terminated inside data_size (length < data_size, the property's domain)"],
         level_text="bounded model checking over the complete value range of each listed type/width"),
     "C08": dict(
@@ -102,8 +103,9 @@ META2 = {
         explanation="s_step.c: after one call from any RI state the storage of every read-only variable is bit-identical (all states, all inputs, all histories). r_twin.c MODE 2: two guided runs of the same "
                     "READ / TEST line that differ only in the stored contents of write-only variables must emit identical bytes (non-interference). k_num.c / k_buf.c: a read-only variable keeps its value "
                     "for every argument text. k_access.c: the real READ / WRITE dispatch on 1-3 variables with symbolic access modes and handler presence refuses exactly when nothing is readable / "
-                    "writable and there is no handler of that kind.",
-        bounds={"quick": "102 step jobs (as C03, built-in checks off), 3 twin shapes (ATn?L, ATnn?L, ATn=?L), 5 kernel jobs", "thorough": "1516 step jobs"},
+                    "writable and there is no handler of that kind. k_wo.c: the real READ formatter run twice on (read-write uint8, write-only variable of each of the five types) where only the write-only "
+                    "variable's stored bytes differ (any bytes, any string lengths): same text, same length, same 'fits / ERROR' decision for every command-buffer capacity 6..32.",
+        bounds={"quick": "109 step jobs (as C03, built-in checks off), 3 twin shapes (ATn?L, ATnn?L, ATn=?L), 6 parser / dispatch kernel jobs, 5 formatter twin jobs (data_size 1..8)", "thorough": "1516 step jobs"},
         outside="unsolicited READ of write-only variables at line level (covered at step level only), more than 2 variables in the twin runs",
         assumptions=[RI_NOTE, FAMILY, "variable callbacks do not modify variable storage themselves"],
         level_text="inductive step for 'never modified', 2-safety by self-composition for 'never disclosed'; bounded descriptor family and line shapes"),
@@ -168,7 +170,7 @@ META2 = {
         level_text="inductive step obligations"),
     "C15": dict(
         engine=E2 + " + " + E3,
-        explanation="safety: s_step.c with two consecutive calls - if the first returns OK, an immediately repeated call with no input returns OK, invokes no callback, writes nothing, changes nothing, and no event "
+        explanation="safety: s_step.c with two consecutive calls (the application may trigger one event from inside io->read or a handler of the first call) - if the first returns OK, an immediately repeated call with no input returns OK, invokes no callback, writes nothing, changes nothing, and no event "
                     "is queued or in progress. liveness: local progress obligations (a reading state whose read is refused, with no event pending, reports OK - waiting for input is not work; no starvation at the flush handshake in either direction, accepted byte advances the cursor, section ends advance, computing "
                     "states change something) plus the explicit linear step bound of the r_line shapes and of the event-only runs (r_evq.c: two events and a write refusal end in OK with nothing queued within 50 calls).",
         bounds={"quick": "queue capacities 1 (all quick pairs) and 2 (event-related pairs), 5 line shapes, 6 event-only runs",
